@@ -57,6 +57,9 @@ ASSUMPTIONS = [
     "the returned parameters (definition = -inf) are excluded and counted",
     "tolerances: ROW_TOL = K*min_value_par + 1e-6; ASC_TOL = 1e-9*(1+|L|); "
     "DEF_TOL = 1e-8*(1+|log part|+|normalisation part|); everything else exact",
+    "rows of nodes that belong to a hyperedge must be non-zero (and sum to 1) when normalizeU=True "
+    "(fit docstring: every row sums to 1); for normalizeU=False a zero row of such a node is "
+    "only classified (the statement asks for zero rows of isolated nodes, not the converse)",
     "ascent is demanded for normalizeU=False and min_value_par in {1e-5, 0}; a decrease is "
     "attributed with the HGX_VERIF guard-event counters (see module docstring)",
     "stdout of the library (verbose=True in a fraction of the cases, unconditional prints of "
@@ -387,15 +390,20 @@ def check_validity(case, ctx):
             require(not row.any(),
                     lambda: "node %r is in no hyperedge but its row of u is %r (row %d)"
                     % (n, row.tolist(), rows[n]), key="isolated-row")
+        elif not case["normalizeU"]:
+            # unconstrained memberships: a zero row is the exact M-step answer when none of the
+            # node's active communities explains one of its hyperedges; the statement only
+            # asks for zero rows of isolated nodes, so this is classified, not demanded
+            if not row.any():
+                ctx.label("zero_row_of_non_isolated_node(normalizeU=False)")
         else:
             require(bool(row.any()),
-                    lambda: "node %r belongs to a hyperedge but its row of u is zero (row %d)"
-                    % (n, rows[n]), key="zero-row")
-            if case["normalizeU"]:
-                s = float(row.sum())
-                require(abs(s - 1.0) <= tol,
-                        lambda: "normalizeU=True: row of node %r sums to %r (|1-sum| > %g): %r"
-                        % (n, s, tol, row.tolist()), key="row-sum")
+                    lambda: "normalizeU=True: node %r belongs to a hyperedge but its row of u is "
+                            "zero (row %d)" % (n, rows[n]), key="zero-row")
+            s = float(row.sum())
+            require(abs(s - 1.0) <= tol,
+                    lambda: "normalizeU=True: row of node %r sums to %r (|1-sum| > %g): %r"
+                    % (n, s, tol, row.tolist()), key="row-sum")
     label_events(ev, ctx)
     ctx.trace = {"guard_events": ev.summary() if ev else None, "maxL": float(maxL)}
     ctx.nontrivial(D >= 3 and len(nodes) > len(covered))
@@ -582,21 +590,21 @@ def check_hysc(case, ctx):
 
 CLAUSES = [
     Clause("mt_validity", lambda tier: mt_cases(tier), check_validity,
-           quick=200, thorough=1500, shards_quick=2,
+           quick=200, thorough=900, shards_quick=2,
            rule="maximum hyperedge size >= 3 and an isolated node present"),
     Clause("mt_bookkeeping", lambda tier: mt_cases(tier, n_real=(1, 3)), check_bookkeeping,
-           quick=150, thorough=1000, shards_quick=2,
+           quick=150, thorough=600, shards_quick=2,
            rule=">= 2 realisations whose final log-likelihoods differ"),
     Clause("mt_ascent", lambda tier: mt_cases(tier, normalizeU=False, ascent=True), check_ascent,
-           quick=250, thorough=2000, shards_quick=3,
+           quick=300, thorough=1200, shards_quick=3,
            rule=">= 5 strict increases of the log-likelihood among the demanded comparisons and "
                 "maximum hyperedge size >= 3"),
     Clause("mt_definition", lambda tier: mt_cases(tier, min_value_par=0.0), check_definition,
-           quick=250, thorough=2000, shards_quick=3,
+           quick=300, thorough=1200, shards_quick=3,
            rule="maximum hyperedge size >= 3, max_iter >= 5, definition finite"),
     Clause("mt_determinism", lambda tier: mt_cases(tier, n_real=(1, 2)), check_determinism,
-           quick=120, thorough=800, shards_quick=2,
+           quick=120, thorough=500, shards_quick=2,
            rule="maximum hyperedge size >= 3 or an isolated node present"),
-    Clause("hysc", hysc_cases, check_hysc, quick=200, thorough=1500, shards_quick=2,
+    Clause("hysc", hysc_cases, check_hysc, quick=200, thorough=900, shards_quick=2,
            rule=">= 2 clusters used and (an isolated node or maximum hyperedge size >= 3)"),
 ]
